@@ -8,7 +8,11 @@ def is_c01(d):
 
 
 def is_c02(d):
-    return d.get('component') not in C01_COMPONENTS
+    return d.get('component') not in C01_COMPONENTS and d.get('component') != 'lg_prediction'
+
+
+def is_c15(d):
+    return d.get('component') == 'lg_prediction'
 
 
 QUICK_PLAN = [('LSet', 4, {}), ('LTrans', 4, {}), ('LVar', 4, {}), ('LDef', 3, {}), ('LInh', 3, {}), ('LDup', 3, {}),
